@@ -136,6 +136,10 @@ def build_cases(ctx, rng, thorough, idx_cases, behaviours, sims):
     def add(cid, src, prov, op, **kw):
         c = {"id": cid, "src": src, "prov": prov, "op": op, "seed": rng.randrange(1 << 30), "rot": len(cases)}
         c.update(kw)
+        if c.get("data") and op.get("form") in ("scalar", "npscalar"):
+            # a scalar indexer on a UxDataArray follows xarray (the dimension is removed, the grid stays whole):
+            # not a grid subset, outside this property; scalars are exercised through Grid.isel
+            op["form"] = "list"
         cases.append(c)
 
     provs = ["derived", "supplied"]
